@@ -46,6 +46,7 @@ pub fn init_math(interp: &mut Interpreter) -> Gc<JsObject> {
     interp.register_method(&math_obj, "ceil", math_ceil, 1);
     interp.register_method(&math_obj, "round", math_round, 1);
     interp.register_method(&math_obj, "trunc", math_trunc, 1);
+    interp.register_method(&math_obj, "fround", math_fround, 1);
     interp.register_method(&math_obj, "sign", math_sign, 1);
 
     // Min/max
@@ -135,7 +136,15 @@ pub fn math_round(
     args: &[JsValue],
 ) -> Result<Guarded, JsError> {
     let n = args.first().map(|v| v.to_number()).unwrap_or(f64::NAN);
-    Ok(Guarded::unguarded(JsValue::Number(prelude_math::round(n))))
+    // Halves round towards +Infinity (Math.round(-1.5) is -1), and a result of zero keeps
+    // the sign of the argument
+    let rounded = if n < 0.0 && prelude_math::fract(n) == -0.5 {
+        n + 0.5
+    } else {
+        prelude_math::round(n)
+    };
+    let rounded = if rounded == 0.0 && n < 0.0 { -0.0 } else { rounded };
+    Ok(Guarded::unguarded(JsValue::Number(rounded)))
 }
 
 pub fn math_trunc(
@@ -160,7 +169,8 @@ pub fn math_sign(
     } else if n < 0.0 {
         -1.0
     } else {
-        0.0
+        // +0 and -0 are returned as they are
+        n
     };
     Ok(Guarded::unguarded(JsValue::Number(result)))
 }
@@ -179,7 +189,8 @@ pub fn math_min(
         if n.is_nan() {
             return Ok(Guarded::unguarded(JsValue::Number(f64::NAN)));
         }
-        if n < min {
+        // -0 is smaller than +0
+        if n < min || (n == 0.0 && min == 0.0 && n.is_sign_negative()) {
             min = n;
         }
     }
@@ -200,7 +211,8 @@ pub fn math_max(
         if n.is_nan() {
             return Ok(Guarded::unguarded(JsValue::Number(f64::NAN)));
         }
-        if n > max {
+        // +0 is larger than -0
+        if n > max || (n == 0.0 && max == 0.0 && n.is_sign_positive()) {
             max = n;
         }
     }
@@ -214,9 +226,23 @@ pub fn math_pow(
 ) -> Result<Guarded, JsError> {
     let base = args.first().map(|v| v.to_number()).unwrap_or(f64::NAN);
     let exp = args.get(1).map(|v| v.to_number()).unwrap_or(f64::NAN);
-    Ok(Guarded::unguarded(JsValue::Number(prelude_math::powf(
-        base, exp,
-    ))))
+    // As the ** operator: a NaN exponent gives NaN, and so does a base of magnitude 1 with an
+    // infinite exponent (IEEE pow gives 1 there)
+    let result = if exp.is_nan() || (exp.is_infinite() && (base == 1.0 || base == -1.0)) {
+        f64::NAN
+    } else {
+        prelude_math::powf(base, exp)
+    };
+    Ok(Guarded::unguarded(JsValue::Number(result)))
+}
+
+pub fn math_fround(
+    _interp: &mut Interpreter,
+    _this: JsValue,
+    args: &[JsValue],
+) -> Result<Guarded, JsError> {
+    let n = args.first().map(|v| v.to_number()).unwrap_or(f64::NAN);
+    Ok(Guarded::unguarded(JsValue::Number((n as f32) as f64)))
 }
 
 pub fn math_sqrt(
